@@ -464,9 +464,9 @@ Fixpoint give (fuel : nat) (nw : Z) (w : fw) (d : Z) (it : item) : fw * bool :=
       match rev (item_gpath it) with
       | [] => (failf w E_RUNTIME, false)
       | gp :: _ =>
-        let '(w1, ok) := try_list w it (sorted_down fuel w gp) in
-        if ok then (upd_part_everywhere (item_id it) (fun p => p <| p_gpath ::= fun s => removelast s |>) w1, true)
-        else (w1, false)
+        (* the part has left this group before it is offered on (an enclosing group's output reached in the same call must
+           see the enclosing path); on refusal the caller's part object is unchanged *)
+        try_list w (item_pop_gpath it) (sorted_down fuel w gp)
       end
     | KHandler | KSource | KSink | KBatcher =>
       if handler_can_accept x then (accept f nw w d it, true) else (w, false)
